@@ -25,7 +25,20 @@ RULE = ("reversible chains from random connected symmetric integer count matrice
         "Each case runs the real committors, reactive_fluxes, net_fluxes, reactive_populations; Coq evaluates "
         "Flux.hyps_b (stochastic, detailed balance, committor equations, bounds, set discipline: exact) and compares "
         "the three model outputs AND the three definitions regenerated from the current tpt.py (Gen/FluxGen.v, the dense "
-        "or the sparse one according to the container) to 1e-9. non-trivial := valid case, n >= 4, non-uniform pi, >= 2 states with 0<q<1")
+        "or the sparse one according to the container) to 1e-9. non-trivial := valid case, n >= 4, non-uniform pi, >= 2 states with 0<q<1. "
+        "Every call (all cases): each argument object (tprob: type, dtype, shape, strides, writeability and entries -- for a sparse container kind, dtype, entries, writeability; populations, "
+        "sources, sinks) is snapshotted before and compared after (`argument-modified`); and for every valid case the three "
+        "functions are called in all 6 orders on ONE shared set of argument objects, each result bit-identical to the call on "
+        "fresh copies (`history-shared-arguments`). Stream `layout` (70 quick / 700 thorough): the same exact matrix as a "
+        "C / Fortran-ordered / transposed-view / strided (both orders) / negative-stride / read-only / float32 (row sums powers of "
+        "two: T exact in single precision) / np.matrix dense array, or a sparse container with read-only buffers / float32 data / "
+        "stored zeros / unsorted indices / int64 indices / duplicate coo entries; self-transitions on most states; populations as "
+        "array / strided view / read-only array / list / tuple; sources and sinks as list / tuple / scalar / int64 / int32 / "
+        "read-only arrays. Stream `small` (70 / 700): populations 2^-k pi, k = 10..100 (every flux scales exactly: net_fluxes(T, "
+        "2^-k p) must equal 2^-k net_fluxes(T, p) bit for bit, `scale-covariance`), or a heavy absorbing ground state (diagonal "
+        "count 10^9..10^20, all other populations ~10^-K) so that net fluxes lie partly or wholly below 1e-12; all 8 containers; "
+        "in this stream the flux clauses and the Coq comparison use 1e-9 * (largest exact reactive flux) instead of 1e-9. "
+        "Stream `range` (30 / 300): a few edges carry 10^2..10^4 times the counts of the others (net fluxes spanning decades; populations given; fluxes to the ordinary 1e-9, reactive populations to max(1e-9, 2e-11 / normaliser): forward error bound of d_i / sum d under the stiff committor solve's error)")
 TRUSTED = ["translator/tr_flux.py: statement shapes of tpt.py and the shape typing of NumPy broadcasting / scipy.sparse "
            ".multiply (M * v[:, None] = row_scale, M * v = col_scale; entry semantics in Base/FluxBase.v, proved equal to "
            "the model in Proof/FluxGenProofs.v, exercised by the correspondence on every case)",
@@ -36,6 +49,11 @@ TRUSTED = ["translator/tr_flux.py: statement shapes of tpt.py and the shape typi
 ASSUMPTIONS = ["transition matrix square, populations vector of the matrix dimension (a length-1 populations vector "
                "broadcasts silently in NumPy; outside the property's quantifier, not generated)",
                "conservation / source-sink clauses: reversible chain, disjoint non-empty duplicate-free sets",
+               "float32 transition matrices: only matrices exactly representable in single precision (dyadic entries) and given "
+               "populations (eq_probs in single precision is an accuracy question outside the property)",
+               "small-magnitude stream: populations given (eq_probs cannot resolve populations of 1e-13 next to one of ~1), heavy "
+               "state absorbing (as an intermediate state 1 - T_gg is not resolved in doubles)",
+               "read-only buffers: csr/csc/coo/bsr/dia only (scipy's own lil indexing needs writeable row lists)",
                "reactive populations: clause applies when the normaliser sum(pi q (1-q)) is non-zero (otherwise no "
                "probability vector vanishing on sources and sinks exists; the code returns NaN, the model None)"]
 EXHAUSTIVE = {"thorough": False}
@@ -132,7 +150,80 @@ def generate(rng, tier):
                     cases.append({"C": C, "src": src, "snk": snk, "pops": rng.choice(["given", "computed"]),
                                   "fmt": rng.choice(["dense", "csr", "lil", "coo"]), "scalar_sets": False,
                                   "allsets": True})
+    # ---- round 3s streams (appended: the cases above are unchanged)
+    k3 = 1 if tier == "quick" else 10
+    # (a) memory layout / container representation / argument forms
+    for k in range(70 * k3):
+        n = rng.choice(sizes)
+        C = _counts(rng, n)
+        src, snk = _sets(rng, n)
+        c = {"C": C, "src": src, "snk": snk, "pops": rng.choice(["given", "given", "given-unnormalised", "computed"]),
+             "scalar_sets": False, "stream": "layout"}
+        if rng.random() < 0.7:
+            c["fmt"] = "dense"
+            c["layout"] = rng.choice(DENSE_LAYOUTS)
+        else:
+            c["fmt"] = rng.choice(FMTS[1:])
+            c["layout"] = rng.choice(["f32", "explicit-zeros"] + {"csr": ["unsorted", "idx64", "ro"], "csc": ["unsorted", "idx64", "ro"],
+                                                                 "coo": ["dups", "dups", "ro"], "bsr": ["ro"], "dia": ["ro"]}.get(c["fmt"], []))
+        if "f32" in c["layout"]:
+            c["C"] = _dyadic(rng, C)           # T exactly representable in float32: same chain in both precisions
+            if c["pops"] == "computed":        # eq_probs in single precision: accuracy outside the property
+                c["pops"] = "given"
+        elif rng.random() < 0.5:
+            for i in range(n):                 # self-transitions everywhere: the diagonal reset has work to do
+                c["C"][i][i] = rng.randint(1, 6)
+        if c["pops"] != "computed":
+            c["pops_form"] = rng.choice(POPS_FORMS)
+        c["sets_form"] = rng.choice(SETS_FORMS)
+        cases.append(c)
+    # (b) small magnitudes: populations scaled by 2^-k (every flux scales exactly), or a heavy absorbing
+    #     ground state (all other populations ~ 10^-K); flux tolerances relative to the flux scale
+    for k in range(70 * k3):
+        n = rng.choice(sizes)
+        C = _counts(rng, n)
+        src, snk = _sets(rng, n)
+        c = {"C": C, "src": src, "snk": snk, "pops": "given", "fmt": rng.choice(FMTS), "scalar_sets": False,
+             "stream": "small"}
+        if rng.random() < 0.55:
+            c["small"] = "scaled"
+            c["scale_k"] = rng.choice([10, 20, 30, 31, 32, 33, 34, 35, 36, 30, 31, 32, 33, 34, 35, 36, 38, 40, 45, 50, 60, 80, 100])
+        else:
+            c["small"] = "rare"
+            g = rng.choice(src + snk)
+            c["C"][g][g] = 10 ** rng.choice([9, 10, 11, 11, 12, 12, 12, 12, 12, 13, 14, 16, 20]) + rng.randint(0, 9)
+        cases.append(c)
+    # (c) wide dynamic range inside one chain: a few edges carry 10^2..10^4 times the counts of the others, so that
+    #     genuine net fluxes span several decades (ordinary absolute tolerance 1e-9)
+    for k in range(30 * k3):
+        n = rng.choice([4, 5, 5, 6, 6])
+        C = _counts(rng, n)
+        for i in range(n):
+            for j in range(i + 1, n):
+                if C[i][j] and rng.random() < 0.3:
+                    C[i][j] = C[j][i] = C[i][j] * 10 ** rng.choice([2, 2, 3])
+        src, snk = _sets(rng, n)
+        cases.append({"C": C, "src": src, "snk": snk, "pops": "given", "fmt": rng.choice(FMTS),
+                      "scalar_sets": False, "stream": "range"})
     return cases
+
+
+DENSE_LAYOUTS = ["F", "F", "T-view", "T-view", "strided", "strided-F", "neg-strides", "readonly", "readonly-F",
+                 "f32", "f32-F", "matrix"]
+POPS_FORMS = ["array", "strided", "readonly", "readonly", "list", "tuple"]
+SETS_FORMS = ["list", "array", "array32", "readonly", "tuple", "scalar"]
+
+
+def _dyadic(rng, C):
+    """same graph, diagonal chosen so that every row sum is a power of two (T_ij = C_ij / 2^k)"""
+    C = [list(r) for r in C]
+    for i in range(len(C)):
+        off = sum(C[i]) - C[i][i]
+        p = 1
+        while p <= off:
+            p *= 2
+        C[i][i] = p * rng.choice([1, 1, 2]) - off
+    return C
 
 
 # ----------------------------------------------------------------------------- exact data
@@ -186,6 +277,8 @@ def _pops_arg(c, pi):
         return None
     if c["pops"] == "given-unnormalised":      # detailed balance and every clause but "sums to 1" are scale-free
         pi = [2 * x for x in pi]
+    if c.get("scale_k"):                       # 2^-k pi: exactly representable, every flux scales exactly
+        pi = [x / 2 ** c["scale_k"] for x in pi]
     m = c.get("badlen")
     if m is None:
         return pi
@@ -223,25 +316,169 @@ def _call(fn, conv):
         return {"err": type(ex).__name__, "msg": str(ex)[:120]}
 
 
+def _mk_tprob(c, Tf):
+    """a fresh transition-matrix object of the case's container / memory layout, holding exactly Tf"""
+    import scipy.sparse as sp
+    lay = c.get("layout")
+    n = len(Tf)
+    if c["fmt"] == "dense":
+        lay = lay or "C"
+        if lay in ("C", "readonly"):
+            a = Tf.copy()
+        elif lay in ("F", "readonly-F"):
+            a = np.array(Tf, order="F")
+        elif lay == "T-view":
+            a = np.array(Tf.T, order="C").T
+        elif lay == "strided":
+            a = np.full((2 * n, 3 * n), 7.0)[::2, 1::3]
+            a[...] = Tf
+        elif lay == "strided-F":
+            a = np.full((3 * n, 2 * n), 7.0, order="F")[1::3, ::2]
+            a[...] = Tf
+        elif lay == "neg-strides":
+            a = np.array(Tf[::-1, ::-1])[::-1, ::-1]
+        elif lay in ("f32", "f32-F"):
+            a = np.array(Tf, dtype=np.float32, order="F" if lay == "f32-F" else "C")
+        elif lay == "matrix":
+            a = np.matrix(Tf)
+        else:
+            raise ValueError("layout %r" % lay)
+        if lay.startswith("readonly"):
+            a.setflags(write=False)
+        if not np.array_equal(np.asarray(a, dtype=float), Tf):
+            raise ValueError("layout %r does not hold the matrix exactly" % lay)
+        return a
+    fmt = c["fmt"]
+    lay = lay or "canon"
+    coo = sp.coo_matrix(Tf)
+    if lay in ("canon", "ro"):
+        x = coo.asformat(fmt)
+    elif lay == "f32":
+        x = coo.astype(np.float32).asformat(fmt)
+    elif lay == "explicit-zeros":      # stored zeros at some structurally empty positions
+        zr, zc = np.nonzero(Tf == 0)
+        zr, zc = zr[::2], zc[::2]
+        x = sp.coo_matrix((np.concatenate([coo.data, np.zeros(len(zr))]),
+                           (np.concatenate([coo.row, zr]), np.concatenate([coo.col, zc]))), shape=Tf.shape).asformat(fmt)
+    elif lay == "dups":                # coo with every entry stored as two halves (exact)
+        x = sp.coo_matrix((np.concatenate([coo.data / 2, coo.data / 2]),
+                           (np.concatenate([coo.row, coo.row]), np.concatenate([coo.col, coo.col]))), shape=Tf.shape)
+    elif lay in ("unsorted", "idx64"):
+        y = coo.asformat(fmt)
+        data, ind, ptr = y.data.copy(), y.indices.copy(), y.indptr.copy()
+        if lay == "unsorted":
+            for a, b in zip(ptr, ptr[1:]):
+                data[a:b] = data[a:b][::-1]
+                ind[a:b] = ind[a:b][::-1]
+        else:
+            ind, ptr = ind.astype(np.int64), ptr.astype(np.int64)
+        x = type(y)((data, ind, ptr), shape=y.shape)
+    else:
+        raise ValueError("layout %r" % lay)
+    if lay == "ro":
+        for a in ("data", "indices", "indptr", "row", "col", "offsets", "rows"):
+            v = getattr(x, a, None)
+            if isinstance(v, np.ndarray):
+                v.setflags(write=False)
+    if not np.array_equal(x.toarray().astype(float), Tf):
+        raise ValueError("layout %r does not hold the matrix exactly" % lay)
+    return x
+
+
+def _mk_pops(c, pa):
+    if pa is None:
+        return None
+    v = np.array([float(x) for x in pa])
+    form = c.get("pops_form", "array")
+    if form == "strided":
+        big = np.full(3 * len(v) + 1, 5.0)
+        w = big[1::3]
+        w[...] = v
+        return w
+    if form == "readonly":
+        v.setflags(write=False)
+    elif form == "list":
+        return [float(x) for x in v]
+    elif form == "tuple":
+        return tuple(float(x) for x in v)
+    return v
+
+
+def _mk_sets(c):
+    src, snk = list(c["src"]), list(c["snk"])
+    form = c.get("sets_form", "scalar" if c.get("scalar_sets") else "list")
+    if form == "scalar":
+        return (src[0] if len(src) == 1 else src), (snk[0] if len(snk) == 1 else snk)
+    if form == "tuple":
+        return tuple(src), tuple(snk)
+    if form in ("array", "array32", "readonly"):
+        a, b = (np.array(x, dtype=np.int32 if form == "array32" else np.int64) for x in (src, snk))
+        if form == "readonly":
+            a.setflags(write=False)
+            b.setflags(write=False)
+        return a, b
+    return src, snk
+
+
+def _snap(x):
+    """everything a caller can observe of an argument object"""
+    import scipy.sparse as sp
+    if sp.issparse(x):
+        d = {"format": x.format, "shape": tuple(x.shape), "dtype": str(x.dtype), "dense": repr(x.toarray().tolist())}
+        # the matrix a caller can observe: container kind, dtype and entries.  (scipy's own conversions sort the
+        # index arrays of an unsorted csr/csc argument in place; that is not a change of the matrix.)
+        d["writeable"] = [bool(v.flags.writeable) for v in (getattr(x, a, None) for a in ("data", "indices", "indptr", "row", "col", "offsets"))
+                          if isinstance(v, np.ndarray)]
+        return d
+    if isinstance(x, np.ndarray):
+        return {"type": type(x).__name__, "dtype": str(x.dtype), "shape": x.shape, "strides": x.strides,
+                "writeable": bool(x.flags.writeable), "values": repr(x.tolist())}      # repr: nan compares equal to nan
+    return repr(x)
+
+
+def _guarded(name, fn, args, kwargs, log):
+    """call fn and record every argument object that is not what it was before the call"""
+    labels = ["tprob", "sources", "sinks"][:len(args)] + list(kwargs)
+    objs = list(args) + list(kwargs.values())
+    before = [_snap(o) for o in objs]
+    try:
+        return fn(*args, **kwargs)
+    finally:
+        for lab, o, b in zip(labels, objs, before):
+            a = _snap(o)
+            if a != b:
+                what = [k for k in b if a.get(k) != b[k]] if isinstance(b, dict) else []
+                log.append("%s modified its argument `%s` (%s): before %s, after %s"
+                           % (name, lab, ", ".join(what), str(b.get("values", b.get("dense")) if isinstance(b, dict) else b)[:200],
+                              str(a.get("values", a.get("dense")) if isinstance(a, dict) else a)[:200]))
+
+
+def _dense(x):
+    import scipy.sparse as sp
+    return x.toarray() if sp.issparse(x) else np.asarray(x)
+
+
+def _same(a, b):
+    return a.shape == b.shape and np.array_equal(a, b, equal_nan=True)
+
+
 def run_impl(c):
+    import itertools
     import scipy.sparse as sp
     from enspara.tpt import tpt
     from enspara.tpt import committors
     T, pi = _exact(c)
     Tf = np.array([[float(x) for x in row] for row in T])
-    if c["fmt"] == "dense":
-        mk = lambda: Tf.copy()
-    else:
-        mk = lambda: sp.coo_matrix(Tf).asformat(c["fmt"])
+    mk = lambda: _mk_tprob(c, Tf)
     pa = _pops_arg(c, pi)
     pops = None if pa is None else np.array([float(x) for x in pa])
-    src, snk = list(c["src"]), list(c["snk"])
-    if c.get("scalar_sets"):
-        src = src[0] if len(src) == 1 else src
-        snk = snk[0] if len(snk) == 1 else snk
-    kw = lambda: dict(populations=None if pops is None else pops.copy())
+    mkp = lambda: _mk_pops(c, pa)
+    src, snk = _mk_sets(c)
+    kw = lambda: dict(populations=mkp())
+    fns = {"F": ("reactive_fluxes", tpt.reactive_fluxes, _mat), "N": ("net_fluxes", tpt.net_fluxes, _mat),
+           "R": ("reactive_populations", tpt.reactive_populations, _vec)}
     hist = None
-    if c["fmt"] in ("dense", "lil") and _valid(c):
+    if c["fmt"] in ("dense", "lil") and _valid(c) and c.get("layout") is None:
         # history probe: analyse a matrix, overwrite the SAME object in place with the lag-2 model
         # (same stationary populations, still reversible), analyse again; must equal a fresh computation
         try:
@@ -260,16 +497,98 @@ def run_impl(c):
                        for fn in (tpt.reactive_fluxes, tpt.net_fluxes, tpt.reactive_populations))
         except Exception as ex:
             hist = "err:" + type(ex).__name__
-    return {"hist": hist,
-            "q": _call(lambda: committors(mk(), src, snk), _vec),
-            "F": _call(lambda: tpt.reactive_fluxes(mk(), src, snk, **kw()), _mat),
-            "N": _call(lambda: tpt.net_fluxes(mk(), src, snk, **kw()), _mat),
-            "R": _call(lambda: tpt.reactive_populations(mk(), src, snk, **kw()), _vec)}
+    # ---- the calls proper: fresh argument objects per call; every argument object must come back unchanged
+    argmut, raw, out = [], {}, {}
+    try:
+        q = _guarded("committors", committors, (mk(),) + _mk_sets(c), {}, argmut)
+        out["q"] = _vec(q)
+    except Exception as ex:
+        out["q"] = {"err": type(ex).__name__, "msg": str(ex)[:120]}
+    for k, (name, fn, conv) in fns.items():
+        try:
+            res = _guarded(name, fn, (mk(),) + _mk_sets(c), kw(), argmut)
+            out[k] = conv(res)
+            raw[k] = _dense(res)
+        except Exception as ex:
+            out[k] = {"err": type(ex).__name__, "msg": str(ex)[:120]}
+    out["hist"] = hist
+    out["argmut"] = argmut[:6]
+    # ---- call histories on SHARED argument objects: the three functions in every order, each result must be
+    #      the one of the call on fresh copies (bit for bit: same code, same values)
+    shared = None
+    if _valid(c) and len(raw) == 3:
+        shared = []
+        for perm in itertools.permutations("FNR"):
+            tp, pp, (s1, s2) = mk(), mkp(), _mk_sets(c)
+            for pos, k in enumerate(perm):
+                name, fn, conv = fns[k]
+                try:
+                    got = _dense(_guarded(name, fn, (tp, s1, s2), dict(populations=pp), argmut))
+                except Exception as ex:
+                    shared.append("order %s: call %d (%s) on the shared argument objects raised %s: %s"
+                                  % (">".join(perm), pos + 1, name, type(ex).__name__, str(ex)[:80]))
+                    break
+                if not _same(got, raw[k]):
+                    dev = float(np.max(np.abs(got - raw[k]))) if got.shape == raw[k].shape else float("nan")
+                    shared.append("order %s: call %d (%s) given the same tprob/populations/sources/sinks objects as the "
+                                  "earlier calls differs from the call on fresh copies (max abs deviation %.3g; e.g. fresh %s, shared %s)"
+                                  % (">".join(perm), pos + 1, name, dev, np.ravel(raw[k])[:6].tolist(), np.ravel(got)[:6].tolist()))
+                    break
+        seen, uniq = set(), []
+        for m in argmut:
+            if m.split(" (")[0] not in seen:
+                seen.add(m.split(" (")[0])
+                uniq.append(m)
+        out["argmut"] = uniq[:6]
+        shared = shared[:4]
+    out["shared"] = shared
+    # ---- exact covariance under a power-of-two scaling of the populations
+    if c.get("scale_k") and _valid(c) and len(raw) == 3:
+        sc, cov = 0.5 ** c["scale_k"], []
+        unscaled = dict(c)
+        unscaled.pop("scale_k")
+        pu = _pops_arg(unscaled, pi)
+        for k, (name, fn, conv) in fns.items():
+            try:
+                ref = _dense(fn(mk(), *_mk_sets(c), populations=_mk_pops(c, pu)))
+            except Exception as ex:
+                cov.append("%s with the unscaled populations raised %s" % (name, type(ex).__name__))
+                continue
+            want = ref if k == "R" else ref * sc
+            if not _same(raw[k], want):
+                bad = np.argwhere(raw[k] != want)[:1].tolist() if raw[k].shape == want.shape else "shape"
+                cov.append("%s(T, 2^-%d p) != %s%s(T, p) bit for bit, first at %s: %s vs %s"
+                           % (name, c["scale_k"], "" if k == "R" else "2^-%d * " % c["scale_k"], name, bad,
+                              raw[k][tuple(bad[0])] if bad != "shape" and bad else "", want[tuple(bad[0])] if bad != "shape" and bad else ""))
+        out["scalecov"] = cov
+    return out
 
 
 # ----------------------------------------------------------------------------- oracle
 def _valid(c):
     return c.get("badlen") is None
+
+
+def _rtol(c):
+    """tolerance of the reactive-population clauses: 1e-9, except in stream `range`, where q comes out of a stiff solve
+    (edge weights up to 6e3: condition <= ~1e5, error eps <= 1e-11; measured 2e-13) and R_i = d_i / sum d has the forward
+    error eps (pi_i + R_i) / normaliser <= 2 eps / normaliser"""
+    if c.get("stream") != "range":
+        return TOL
+    T, pi = _exact(c)
+    q = _exact_q(T, c["src"], c["snk"])
+    norm = 0 if q is None else sum(p * x * (1 - x) for p, x in zip(pi, q))
+    return TOL if norm == 0 else max(TOL, F(2, 10 ** 11) / norm)
+
+
+def _flux_scale(c):
+    """the largest exact reactive flux of the case (the unit of the relative tolerances)"""
+    T, pi = _exact(c)
+    pi = _pops_arg(c, pi) or pi
+    q = _exact_q(T, c["src"], c["snk"])
+    n = len(T)
+    m = 0 if q is None else max([pi[i] * (1 - q[i]) * T[i][j] * q[j] for i in range(n) for j in range(n) if i != j] + [0])
+    return m if m > 0 else max(pi)
 
 
 def oracle(c, r):
@@ -279,6 +598,7 @@ def oracle(c, r):
     n = len(T)
     src, snk = c["src"], c["snk"]
     tol = TOL
+    ftol = TOL * _flux_scale(c) if c.get("small") else TOL       # flux clauses: relative to the flux scale in the small-magnitude stream
     if not _valid(c):
         for k in ("F", "N", "R"):
             if "err" not in r[k]:
@@ -287,6 +607,12 @@ def oracle(c, r):
         return out
     if r.get("hist") is False:
         out.append(("history-dependence", "re-analysing an array overwritten in place (lag-2 model in the same object) differs from a fresh computation"))
+    for m in r.get("argmut") or []:
+        out.append(("argument-modified", m))
+    for m in r.get("shared") or []:
+        out.append(("history-shared-arguments", m))
+    for m in r.get("scalecov") or []:
+        out.append(("scale-covariance", m))
     for k in ("q", "F", "N"):
         if "val" not in r[k]:
             out.append(("no-value-" + k, "%s did not return a finite array: %s" % (k, r[k])))
@@ -312,14 +638,14 @@ def oracle(c, r):
                     out.append(("flux-diagonal", "flux[%d][%d] = %s" % (i, j, float(Fm[i][j]))))
             else:
                 want = pi[i] * (1 - q[i]) * T[i][j] * q[j]
-                if abs(Fm[i][j] - want) > tol:
+                if abs(Fm[i][j] - want) > ftol:
                     out.append(("flux-definition", "flux[%d][%d] = %s, pi_i q-_i T_ij q+_j = %s"
                                 % (i, j, float(Fm[i][j]), float(want))))
     # net flux = positive part of f - f^T; at most one direction carries net flux
     for i in range(n):
         for j in range(n):
             want = max(Fm[i][j] - Fm[j][i], F(0))
-            if abs(Nm[i][j] - want) > tol:
+            if abs(Nm[i][j] - want) > ftol:
                 out.append(("net-definition", "net[%d][%d] = %s, (f - f^T)+ = %s" % (i, j, float(Nm[i][j]), float(want))))
             if Nm[i][j] < 0:
                 out.append(("net-negative", "net[%d][%d] = %s" % (i, j, float(Nm[i][j]))))
@@ -328,35 +654,36 @@ def oracle(c, r):
     rowN = [sum(Nm[i]) for i in range(n)]
     colN = [sum(Nm[j][i] for j in range(n)) for i in range(n)]
     for i in mid:
-        if abs(rowN[i] - colN[i]) > tol:
+        if abs(rowN[i] - colN[i]) > ftol:
             out.append(("conservation", "intermediate state %d: net out %s, net in %s" % (i, float(rowN[i]), float(colN[i]))))
         fo, fi = sum(Fm[i]), sum(Fm[j][i] for j in range(n))
-        if abs(fo - fi) > tol:
+        if abs(fo - fi) > ftol:
             out.append(("conservation-gross", "intermediate state %d: flux out %s, flux in %s" % (i, float(fo), float(fi))))
     for i in src:
-        if colN[i] > tol:
+        if colN[i] > ftol:
             out.append(("into-sources", "net flux %s into source %d" % (float(colN[i]), i)))
     for i in snk:
-        if rowN[i] > tol:
+        if rowN[i] > ftol:
             out.append(("out-of-sinks", "net flux %s out of sink %d" % (float(rowN[i]), i)))
     so, si = sum(rowN[i] for i in src), sum(colN[i] for i in snk)
-    if abs(so - si) > tol:
+    if abs(so - si) > ftol:
         out.append(("source-out-eq-sink-in", "out of sources %s, into sinks %s" % (float(so), float(si))))
     # reactive populations
+    rtol = _rtol(c)
     qe = _exact_q(T, src, snk)
     norm = None if qe is None else sum(pi[i] * qe[i] * (1 - qe[i]) for i in range(n))
     R = r["R"]
     if "val" in R:
         rv = [F(x) for x in R["val"]]
         if norm is not None and norm != 0:
-            if len(rv) != n or any(x < -tol for x in rv) or abs(sum(rv) - 1) > tol:
+            if len(rv) != n or any(x < -rtol for x in rv) or abs(sum(rv) - 1) > rtol:
                 out.append(("rpop-probability", "reactive populations %s" % [float(x) for x in rv]))
-            elif any(abs(rv[i]) > tol for i in src + snk):
+            elif any(abs(rv[i]) > rtol for i in src + snk):
                 out.append(("rpop-sources-sinks", "reactive populations %s non-zero on a source/sink" % [float(x) for x in rv]))
             else:
                 for i in range(n):
                     want = pi[i] * qe[i] * (1 - qe[i]) / norm
-                    if abs(rv[i] - want) > tol:
+                    if abs(rv[i] - want) > rtol:
                         out.append(("rpop-definition", "reactive population %d = %s, want %s" % (i, float(rv[i]), float(want))))
                         break
     elif "nan" in R:
@@ -405,6 +732,8 @@ def coq_check(c, r):
     if pre is None:
         return None
     tol = cq(TOL)
+    ftol = cq(TOL * _flux_scale(c)) if c.get("small") else tol
+    rtol = cq(_rtol(c))
     Fi, Ni = _optmat(r["F"]), _optmat(r["N"])
     if Fi is None or Ni is None:
         return "false"
@@ -425,17 +754,17 @@ def coq_check(c, r):
             return "false"
         parts.append("hyps_b T pi q src snk")
         parts.append("CaseLib.ql_close %s %s q" % (tol, _ql([F(v) for v in r["q"]["val"]])))
-    parts.append("CaseLib.opt_eqb (CaseLib.qll_close %s) %s (reactive_fluxes T pi q)" % (tol, Fi))
+    parts.append("CaseLib.opt_eqb (CaseLib.qll_close %s) %s (reactive_fluxes T pi q)" % (ftol, Fi))
     netfn = "net_fluxes" if c["fmt"] == "dense" else "net_fluxes_sparse"      # the code's two branches
-    parts.append("CaseLib.opt_eqb (CaseLib.qll_close %s) %s (%s T pi q)" % (tol, Ni, netfn))
-    parts.append("CaseLib.opt_eqb (CaseLib.ql_close %s) %s (reactive_populations pi q)" % (tol, Ri))
+    parts.append("CaseLib.opt_eqb (CaseLib.qll_close %s) %s (%s T pi q)" % (ftol, Ni, netfn))
+    parts.append("CaseLib.opt_eqb (CaseLib.ql_close %s) %s (reactive_populations pi q)" % (rtol, Ri))
     if _valid(c):
         # the definitions regenerated from the current source (unguarded expressions: valid shapes only)
         kind = "dense" if c["fmt"] == "dense" else "sparse"
-        parts.append("CaseLib.opt_eqb (CaseLib.qll_close %s) %s (Some (gen_reactive_fluxes_%s T pi q))" % (tol, Fi, kind))
-        parts.append("CaseLib.opt_eqb (CaseLib.qll_close %s) %s (Some (gen_net_fluxes_%s T pi q))" % (tol, Ni, kind))
+        parts.append("CaseLib.opt_eqb (CaseLib.qll_close %s) %s (Some (gen_reactive_fluxes_%s T pi q))" % (ftol, Fi, kind))
+        parts.append("CaseLib.opt_eqb (CaseLib.qll_close %s) %s (Some (gen_net_fluxes_%s T pi q))" % (ftol, Ni, kind))
         if Ri != "(@None (list Q))":
-            parts.append("CaseLib.opt_eqb (CaseLib.ql_close %s) %s (Some (gen_reactive_populations pi q))" % (tol, Ri))
+            parts.append("CaseLib.opt_eqb (CaseLib.ql_close %s) %s (Some (gen_reactive_populations pi q))" % (rtol, Ri))
     return "(" + pre + "(" + " && ".join("(%s)" % p for p in parts) + ")%bool)"
 
 
@@ -494,15 +823,66 @@ def tags(c, r):
             Nm = r["N"]["val"]
             if any(Nm[i][j] != "0" for i in range(n) for j in range(n)):
                 t.append("some-net-flux")
-    if c.get("scalar_sets"):
+    if c.get("scalar_sets") or c.get("sets_form") == "scalar":
         t.append("scalar-source-or-sink-argument")
     if c.get("allsets"):
         t.append("all-source-sink-pairs-enumeration")
+    # round 3s streams
+    if c.get("stream"):
+        t.append("stream-" + c["stream"])
+    lay = c.get("layout")
+    if lay:
+        t.append(("layout-" if c["fmt"] == "dense" else "sparse-repr-") + lay)
+    if c.get("pops_form"):
+        t.append("pops-form-" + c["pops_form"])
+    if c.get("sets_form"):
+        t.append("sets-form-" + c["sets_form"])
+    if r.get("shared") is not None:
+        t.append("shared-argument-histories-all-6-orders")
+        if c["pops"] != "computed":
+            t.append("shared-populations-object")
+    if q is not None:
+        react_self = any(T[i][i] > 0 and 0 < q[i] < 1 for i in range(n))
+        if react_self:
+            t.append("reactive-self-transition")
+        if c["fmt"] == "dense" and n > 1 and react_self:
+            if lay in ("F", "T-view", "readonly-F", "f32-F"):
+                t.append("fortran-contiguous-dense-with-reactive-self-transition")
+            if lay in ("strided", "strided-F", "neg-strides"):
+                t.append("non-contiguous-dense-with-reactive-self-transition")
+        if c.get("stream") == "range":
+            f = [[pi[i] * (1 - q[i]) * T[i][j] * q[j] if i != j else 0 for j in range(n)] for i in range(n)]
+            net = [f[i][j] - f[j][i] for i in range(n) for j in range(n) if f[i][j] > f[j][i]]
+            if net and min(net) * 1000 < max(net):
+                t.append("net-fluxes-span-3-decades")
+        if c.get("small"):
+            t.append("small-" + c["small"])
+            pg = _pops_arg(c, pi)
+            f = [[pg[i] * (1 - q[i]) * T[i][j] * q[j] if i != j else 0 for j in range(n)] for i in range(n)]
+            net = [f[i][j] - f[j][i] for i in range(n) for j in range(n) if f[i][j] > f[j][i]]
+            lo = sum(1 for x in net if x < F(1, 10 ** 12))
+            if net and 0 < lo < len(net):
+                t.append("net-flux-partly-below-1e-12")
+            elif net and lo == len(net):
+                t.append("net-flux-wholly-below-1e-12")
+            elif net:
+                t.append("net-flux-wholly-above-1e-12")
+            if lo and c["fmt"] != "dense":
+                t.append("sparse-net-flux-below-1e-12")
+            if "scalecov" in r:
+                t.append("scale-covariance-checked")
     return t
 
 
 ESSENTIAL_TAGS = ["dense", "sparse", "pops-given", "pops-given-unnormalised", "pops-computed", "multi-source", "multi-sink", "nonuniform-pi",
-                  "zero-normaliser", "intermediate-with-q-0-or-1", "malformed-populations-length", "some-net-flux"]
+                  "zero-normaliser", "intermediate-with-q-0-or-1", "malformed-populations-length", "some-net-flux",
+                  # round 3s
+                  "shared-argument-histories-all-6-orders", "shared-populations-object", "pops-form-readonly", "pops-form-strided",
+                  "sets-form-readonly", "layout-F", "layout-T-view", "layout-strided", "layout-strided-F", "layout-readonly",
+                  "layout-f32", "fortran-contiguous-dense-with-reactive-self-transition",
+                  "non-contiguous-dense-with-reactive-self-transition", "sparse-repr-ro", "sparse-repr-explicit-zeros",
+                  "small-scaled", "small-rare", "net-flux-partly-below-1e-12", "net-flux-wholly-below-1e-12",
+                  "sparse-net-flux-below-1e-12", "scale-covariance-checked", "net-fluxes-span-3-decades"]
 
 
 def search(rng, tier):
